@@ -45,7 +45,7 @@ def gen_cases(tier, seed):
             shp = gen.rand_shape(rng, N, 1, 4)
             for nel in range(1, max(shp) + 2):
                 for sparse in (False, True):
-                    yield C(w="diag", shape=list(shp), nel=nel, sparse=sparse, with_shape=True)
+                    yield C(w="diag", shape=list(shp), nel=nel, sparse=sparse, with_shape=True, mo=(None if sparse else [None, "F", "C"][int(rng.integers(0, 3))]))
     for nel in (1, 2, 3):
         for sparse in (False, True):
             yield C(w="diag", shape=[nel] * nel, nel=nel, sparse=sparse, with_shape=False)
@@ -54,7 +54,8 @@ def gen_cases(tier, seed):
         for size in (1, 2, 3):
             if order == 6 and size == 3:
                 continue
-            yield C(w="eye", order=order, size=size)
+            for mo in (None, "F", "C"):
+                yield C(w="eye", order=order, size=size, mo=mo)
     # random sparse: every count for tiny shapes, densities, larger tensors, seeds
     small = [s for s in gen.all_shapes(3, (1, 2, 3, 4)) if 2 <= int(np.prod(s)) <= 12]
     for shp in (gen.take(rng, small, 12) if tier == "quick" else small):
@@ -69,6 +70,10 @@ def gen_cases(tier, seed):
         yield C(w="sprand", shape=list(shp), how="nonzeros", amount=int(rng.integers(1, max(2, n // 3))), via="sptenrand")
         yield C(w="sprand", shape=list(shp), how="density", amount=float(rng.choice([0.01, 0.2, 0.7])), via="sptenrand")
         yield C(w="sprand", shape=list(shp), how="nonzeros", amount=n - int(rng.integers(1, 3)), via="sptenrand")
+    # index spaces beyond 2^63 cells (the cell count no longer fits a machine integer): the requested density still decides the count
+    for shp, dens in (([65536] * 4, 1e-18), ([100000] * 4, 1e-18), ([2 ** 21] * 3, 3e-18), ([2 ** 16, 2 ** 16, 2 ** 16, 2 ** 15], 2e-18), ([2 ** 20] * 3, 2e-17),
+                      ([3, 2 ** 62], 1e-18), ([2 ** 40, 2 ** 30], 4e-21)):
+        yield C(w="sprand", shape=shp, how="density", amount=dens, via="sptenrand")
     # aggregating constructor
     for _ in range(60 if tier == "quick" else 600):
         shp = gen.rand_shape(rng, int(rng.integers(1, 4)), 1, 4)
@@ -138,7 +143,9 @@ def _w_diag(case, ctx, rng):
     g = "sptendiag" if sparse else "tendiag"
     ctx.feat(gen=g, N=len(shape), rel=("shorter" if nel < min(shape) else "longer" if nel > max(shape) else "within"), with_shape=case["with_shape"])
     fn = ttb.sptendiag if sparse else ttb.tendiag
-    T = ctx.must(g, fn, el.copy(), *([shape] if case["with_shape"] else []))
+    kwo = {} if case.get("mo") is None else {"order": case["mo"]}
+    ctx.feat(mo=str(case.get("mo")))
+    T = ctx.must(g, fn, el.copy(), *([shape] if case["with_shape"] else []), **kwo)
     N = len(shape)
     want_shape = tuple(max(nel, s) for s in shape) if case["with_shape"] else (nel,) * nel
     want = np.zeros(want_shape)
@@ -150,12 +157,22 @@ def _w_diag(case, ctx, rng):
         ctx.check(same(denote(T), want), g, "WRONG", lambda: f"{g}: {denote(T).tolist()} want {want.tolist()}")
     if sparse:
         ctx.structural(T, g, nozero=True)
+    else:
+        # nothing may be remembered between calls: scribble over the first result, ask again
+        T.data[...] = 99.0
+        T2 = ctx.must(g, fn, el.copy(), *([shape] if case["with_shape"] else []), **kwo)
+        ctx.check(tuple(T2.shape) == want_shape and same(denote(T2), want), g, "WRONG", "second call (after the first result was overwritten in place) differs", second_call=True)
 
 
 def _w_eye(case, ctx, rng):
     order, size = case["order"], case["size"]
     ctx.feat(gen="teneye", order=order, size=size)
-    T = ctx.must("teneye", ttb.teneye, order, size)
+    kwo = {} if case.get("mo") is None else {"order": case["mo"]}
+    ctx.feat(mo=str(case.get("mo")))
+    T0 = ctx.must("teneye", ttb.teneye, order, size, **kwo)
+    if isinstance(T0, ttb.tensor):
+        T0.data[...] = 7.0      # nothing may be remembered between calls
+    T = ctx.must("teneye", ttb.teneye, order, size, **kwo)
     ok = isinstance(T, ttb.tensor) and tuple(T.shape) == (size,) * order
     ctx.check(ok, "teneye", "WRONG-SHAPE", f"teneye({order},{size}) shape {getattr(T, 'shape', None)}")
     if not ok:
@@ -174,8 +191,10 @@ def _w_eye(case, ctx, rng):
 
 
 def _w_sprand(case, ctx, rng):
-    shape = tuple(case["shape"])
-    size = int(np.prod(shape))
+    import math
+
+    shape = tuple(int(x) for x in case["shape"])
+    size = math.prod(shape)
     how, amount, via = case["how"], case["amount"], case["via"]
     want_n = int(np.floor(amount)) if how == "nonzeros" else int(np.ceil(size * amount))
     ctx.feat(gen=via, how=how, saturation=("full" if want_n == size else "near" if want_n > 0.5 * size else "low"), tiny=(size <= 12))
@@ -201,8 +220,10 @@ def _w_sprand(case, ctx, rng):
         ctx.fail(via, "ILLFORMED", p)
     ctx.check(isinstance(S, ttb.sptensor) and tuple(S.shape) == shape, via, "WRONG-SHAPE", f"shape {getattr(S, 'shape', None)} want {shape}")
     accept = {want_n} if how == "nonzeros" else {int(np.floor(size * amount)), int(np.ceil(size * amount))}
+    # a draw of k subscripts out of n cells contains a repeat with probability ~ 1 - exp(-k^2 / 2n); all ten retries must contain one
+    # for the (known) short count to occur, which is only plausible when k^2 is not small against n
     ctx.check(S.nnz in accept, via, "WRONG-COUNT", f"{S.nnz} nonzeros, requested {sorted(accept)} ({how}={amount}, {size} cells)",
-              short=bool(S.nnz < min(accept)))
+              short=bool(S.nnz < min(accept)), repeats_plausible=bool(4 * want_n * want_n > size))
     if via == "from_function" and S.nnz:
         ctx.check(len(drawn) == 1 and np.array_equal(np.asarray(S.vals).reshape(-1), drawn[0].reshape(-1)), via, "WRONG",
                   "values are not the supplied function's output")
@@ -213,7 +234,8 @@ def _w_sprand(case, ctx, rng):
     np.random.seed(case["gseed"])
     r2 = ctx.call(via, mk)
     if r2.ok:
-        ctx.check(same(denote(r2.value), denote(S)) and np.array_equal(r2.value.subs, S.subs), via, "NOT-REPRODUCIBLE", "same global seed gives another tensor")
+        ctx.check(tuple(r2.value.shape) == tuple(S.shape) and np.array_equal(r2.value.subs, S.subs) and same(np.asarray(r2.value.vals), np.asarray(S.vals)), via,
+                  "NOT-REPRODUCIBLE", "same global seed gives another tensor")
 
 
 def _w_aggregate(case, ctx, rng):
